@@ -275,3 +275,107 @@ func ruleP11(p *Prog, r *Report) {
 	}
 	r.Floor(R, "decoders of shared compact-map entries", 1, n)
 }
+
+// P12 the count and the seed a decoder gives a map are the encoded ones.
+//
+// A map's extra data carries its element count and hash seed; the element list does not (a collision group is
+// one entry of the list). Every MapExtraData a decoder builds takes Count and Seed from the register - decoded
+// integers, or the same-named field of the extra-data entry it copies - never from something recomputed from the
+// decoded elements (whose Count() counts groups, not keys).
+func ruleP12(p *Prog, r *Report) {
+	const R = "P12"
+	scope, _ := p.decodeScope()
+	n := 0
+	count := map[string]int{}
+	for _, f := range sortedFuncs(p, scope) {
+		eachInstr(f, func(in ssa.Instruction) {
+			st, ok := in.(*ssa.Store)
+			if !ok {
+				return
+			}
+			fr, ok := asFieldAddr(st.Addr)
+			if !ok || fr.Owner == nil || fr.Owner.Obj().Name() != "MapExtraData" || (fr.Field != "Count" && fr.Field != "Seed") {
+				return
+			}
+			if !isFreshBase(fr.Base) {
+				return
+			}
+			n++
+			count[p.Name(f)]++
+			cons := fmt.Sprintf("decoded-%s-is-encoded:%s#%d", strings.ToLower(fr.Field), p.Name(f), count[p.Name(f)])
+			v := canonConv(st.Val)
+			good := false
+			if src, ok := asLoadedField(v); ok && src.Field == fr.Field {
+				good = true // copied from the entry it refers to
+			}
+			if ex, ok := v.(*ssa.Extract); ok {
+				if c, ok := ex.Tuple.(*ssa.Call); ok && strings.HasPrefix(calleeName(c), "Decode") {
+					good = true
+				}
+			}
+			if _, isPrm := v.(*ssa.Parameter); isPrm {
+				good = true // handed in by the decoder that read it
+			}
+			r.Decide(good, R, cons, p.InstrPos(in), "taken from the register (a decoded integer or the same field of the entry that is copied)",
+				"the "+fr.Field+" a decoder gives the map is not read from the register: recomputed from the decoded elements it is wrong for maps with collision groups (a group is one entry of the element list), and every later commit writes the wrong value back")
+		})
+	}
+	r.Floor(R, "map extra data fields set by decoders", 4, n)
+}
+
+// P13 nested storables are decoded under the id of the slab that holds them.
+//
+// The StorableDecoder callback receives the id of the enclosing slab: an inlined child container takes its
+// address from it. A value decoded under SlabIDUndefined comes back with the temporary (zero) address - when it
+// is later un-inlined its slab is stored under an address that commits skip, and the parent refers to a register
+// that is never written. The undefined id is right only for the field names of a shared compact-map entry, which
+// are asserted to be comparable storables (never containers). Obligation per call of a StorableDecoder value in
+// decode scope: the id argument is not SlabIDUndefined, unless the result is asserted to ComparableStorable.
+func ruleP13(p *Prog, r *Report) {
+	const R = "P13"
+	scope, _ := p.decodeScope()
+	n := 0
+	count := map[string]int{}
+	for _, f := range sortedFuncs(p, scope) {
+		eachInstr(f, func(in ssa.Instruction) {
+			c, ok := in.(*ssa.Call)
+			if !ok || c.Call.IsInvoke() || c.Call.StaticCallee() != nil {
+				return
+			}
+			if typeName(c.Call.Value.Type()) != "StorableDecoder" || len(c.Call.Args) < 2 {
+				return
+			}
+			n++
+			count[p.Name(f)]++
+			cons := fmt.Sprintf("decoded-under-enclosing-id:%s#%d", p.Name(f), count[p.Name(f)])
+			undefined := false
+			if u, ok := canon(c.Call.Args[1]).(*ssa.UnOp); ok && u.Op == token.MUL {
+				if g, ok := u.X.(*ssa.Global); ok && g.Name() == "SlabIDUndefined" {
+					undefined = true
+				}
+			}
+			if !undefined {
+				r.Ok(R, cons, p.InstrPos(in), "decoded under an id handed in or decoded by the enclosing routine")
+				return
+			}
+			// the result may only be a comparable storable (a field name)
+			onlyKey := false
+			if c.Referrers() != nil {
+				for _, ref := range *c.Referrers() {
+					ex, ok := ref.(*ssa.Extract)
+					if !ok || ex.Index != 0 || ex.Referrers() == nil {
+						continue
+					}
+					for _, r2 := range *ex.Referrers() {
+						if ta, ok := r2.(*ssa.TypeAssert); ok && typeName(ta.AssertedType) == "ComparableStorable" {
+							onlyKey = true
+						}
+					}
+				}
+			}
+			r.Decide(onlyKey, R, cons, p.InstrPos(in), "the undefined id is used for a field name, which is asserted to be a comparable storable (never a container)",
+				"a storable is decoded under SlabIDUndefined although it can be a nested container: the container comes back with the temporary address, and once it is un-inlined its slab lives under an address that commits skip - the parent then refers to a register that is never written")
+		})
+	}
+	r.Floor(R, "StorableDecoder calls in decode scope", 6, n)
+}
